@@ -26,6 +26,8 @@ RULE = (
     "bo:i:<BO of anchor>, sn:Z:<rank-0 contig of the reference nodes on the path | unknown>, iv:i:<1 iff tagged scaffold nodes "
     "occur in both orientations>. Non-trivial = >=3 records and a record with iv=1 or sn=unknown or a reverse-majority anchor. "
     "Distinct by SHA-1 of the case."
+    " Later additions: records with exactly twelve columns, BGZF input sorted to standard output, signed "
+    "integer tags."
 )
 ASSUMPTIONS = ["a path touches reference nodes of one rank-0 contig only (walks stay inside one component)"]
 
